@@ -528,33 +528,48 @@ func (e *Engine) emitLazy(p *partition, completions []*run, survivors *[]*run) [
 }
 
 // emitGreedy 处理贪婪模式的完成匹配：pending 已按 startSeq 暂存（只留最长），emit 延伸
-// 终止的 startSeq（survivors 中无同 startSeq 的 run）。survivors 为空时 emit 全部（供 Flush）。
+// 终止的 startSeq。survivors 为空时 emit 全部（供 Flush）。
+// Starts are emitted leftmost-first: a pending start is held back while a run with an earlier
+// or equal start is still alive, because that run may still produce the match that takes
+// precedence (and whose SKIP would discard this start).
 func (e *Engine) emitGreedy(p *partition, survivors *[]*run) []map[string]any {
-	if len(p.pending) == 0 {
-		return nil // 默认贪婪模式每事件调用：无在途匹配时短路，避免无用 map 分配
-	}
-	active := make(map[int64]bool, len(*survivors))
-	for _, r := range *survivors {
-		active[r.startSeq] = true
-	}
-	var ready []int64
-	for s := range p.pending {
-		if !active[s] && s >= p.nextStart {
-			ready = append(ready, s)
-		}
-	}
-	sort.Slice(ready, func(i, j int) bool { return ready[i] < ready[j] })
 	var emitted []map[string]any
-	for _, s := range ready {
-		if s < p.nextStart {
-			continue // 被前一轮 SKIP 推进跳过（直接守卫，与 emitLazy 一致）
+	for len(p.pending) > 0 { // 默认贪婪模式每事件调用：无在途匹配时短路
+		// survivors only shrink (emitOne prunes them), so every start below limit stays
+		// emittable during this round; a round that emitted may unblock later starts.
+		limit := earliestStart(*survivors)
+		var ready []int64
+		for s := range p.pending {
+			if s >= p.nextStart && s < limit {
+				ready = append(ready, s)
+			}
 		}
-		best := p.pending[s][0]
-		emitted = append(emitted, e.emitOne(p, best, survivors)...)
-		delete(p.pending, s)
+		if len(ready) == 0 {
+			break
+		}
+		sort.Slice(ready, func(i, j int) bool { return ready[i] < ready[j] })
+		for _, s := range ready {
+			if s < p.nextStart {
+				continue // 被前一轮 SKIP 推进跳过（直接守卫，与 emitLazy 一致）
+			}
+			best := p.pending[s][0]
+			emitted = append(emitted, e.emitOne(p, best, survivors)...)
+			delete(p.pending, s)
+		}
 	}
 	e.prunePending(p, p.nextStart)
 	return emitted
+}
+
+// earliestStart returns the smallest startSeq among runs (maxInt64 if there is none).
+func earliestStart(runs []*run) int64 {
+	min := maxInt64
+	for _, r := range runs {
+		if r.startSeq < min {
+			min = r.startSeq
+		}
+	}
+	return min
 }
 
 // prunePending 清除 startSeq < nextStart 的暂存完成匹配（已被 SKIP 跳过）。
